@@ -212,6 +212,30 @@ theorem cacheInv_lookup (c : Cfg) (s : St) (k : LookupKind) (name : Bytes) (h : 
         exact h1 k' h'
   · exact h1
 
+/-! ## every reachable state satisfies the cache invariant -/
+
+inductive QOp where
+  | request (d : ModDef)                       -- interrogate_request_module / _database
+  | lookup (k : LookupKind) (name : Bytes)     -- interrogate_get_*_by_*name
+  | touch                                      -- any other accessor (calls check_latest)
+
+def qstep (c : Cfg) (s : St) : QOp → St
+  | .request d => s.requestModule d
+  | .lookup k name => (s.lookup c k name).1
+  | .touch => s.checkLatest c
+
+theorem cacheInv_reachable (c : Cfg) (ops : List QOp) : CacheInv c (ops.foldl (qstep c) {}) := by
+  suffices ∀ s, CacheInv c s → CacheInv c (ops.foldl (qstep c) s) from this {} (cacheInv_init c)
+  induction ops with
+  | nil => intro s h; exact h
+  | cons op ops ih =>
+    intro s h
+    apply ih
+    cases op with
+    | request d => exact cacheInv_requestModule c s d h
+    | lookup k name => exact cacheInv_lookup c s k name h
+    | touch => exact cacheInv_checkLatest c s h
+
 /-! ## binary search over the unique-name table -/
 
 theorem bsearchFuel_terminates (names : List (Bytes × Int)) (key : Bytes) :
